@@ -361,6 +361,13 @@ func hostileReplies() []hostileReply {
 			w.Header().Set(http.TrailerPrefix+"Grpc-Status", "5")
 			w.Header().Set(http.TrailerPrefix+"Grpc-Message", "nope")
 		}},
+		hostileReply{"transfer-encoding-gzip", auto(func(_ *wire.ServerResp, out *wire.ServerOut, _ *world.Reply) { out.Header.Set("Transfer-Encoding", "gzip") })},
+		hostileReply{"transfer-encoding-gzip-chunked-error", func(hb *hostileBackend, w http.ResponseWriter, r *http.Request) {
+			w.Header().Set("Content-Type", "text/plain")
+			w.Header().Set("Transfer-Encoding", "gzip, chunked")
+			w.WriteHeader(503)
+			_, _ = w.Write([]byte("upstream said no"))
+		}},
 		hostileReply{"late-content-length-then-ok", func(hb *hostileBackend, w http.ResponseWriter, r *http.Request) {
 			auto(nil)(hb, w, r)
 			w.Header().Set("Content-Length", "3")
